@@ -62,6 +62,16 @@ use super::logs::{self, LogBuilder};
 use super::paths;
 use super::state::{self, Lock, LockType, ProcessState, ProcessTransaction, Stamp};
 
+/// What [`BuildJob::start`] did.
+enum Started<'a> {
+    /// The job is under way (or already decided): wait for its status.
+    Job(Pin<Box<dyn Future<Output = i32> + 'a>>),
+    /// Nothing was started and the target's lock has been given up: something
+    /// the target depends on is being built by somebody else right now.  The
+    /// target has to be looked at again later.
+    Busy,
+}
+
 struct BuildJob<'a> {
     /// Original target name. (Not relative to `Env.base`).
     t: RedoPathBuf,
@@ -81,7 +91,7 @@ impl BuildJob<'_> {
         ps_ref: Rc<RefCell<&'a mut ProcessState>>,
         mut ptx: ProcessTransaction<'_>,
         server: &JobServerHandle,
-    ) -> Result<Pin<Box<dyn Future<Output = i32> + 'a>>, RedoError> {
+    ) -> Result<Started<'a>, RedoError> {
         let before_t = try_stat(self.t.as_path()).map_err(RedoError::opaque_error)?;
         debug_assert!(self.lock.is_owned());
         let (is_target, dirty) = match (self.should_build_func)(&mut ptx, &self.t) {
@@ -92,12 +102,12 @@ impl BuildJob<'_> {
                 // other targets of the command are unaffected.
                 Some(code) => {
                     log_err!("{}\n", e);
-                    return Ok(Box::pin(future::ready(code)));
+                    return Ok(Started::Job(Box::pin(future::ready(code))));
                 }
                 None => return Err(e),
             },
         };
-        match dirty {
+        let job: Pin<Box<dyn Future<Output = i32> + 'a>> = match dirty {
             Dirtiness::Clean => {
                 // Target doesn't need to be built; skip the whole task.
                 if is_target {
@@ -107,17 +117,36 @@ impl BuildJob<'_> {
                         None,
                     );
                 }
-                Ok(Box::pin(future::ready(EXIT_SUCCESS)))
+                Box::pin(future::ready(EXIT_SUCCESS))
             }
-            Dirtiness::Dirty => self.start_self(ps_ref, ptx, server, before_t),
+            Dirtiness::Dirty => self.start_self(ps_ref, ptx, server, before_t)?,
             Dirtiness::NeedTargets(targets) => {
                 if ptx.state().env().no_oob {
-                    self.start_self(ps_ref, ptx, server, before_t)
+                    self.start_self(ps_ref, ptx, server, before_t)?
                 } else {
-                    self.start_deps_unlocked(ptx, server, targets)
+                    if !ptx.state().env().unlocked {
+                        // Dealing with `targets` out of band keeps this target's
+                        // lock while it waits for theirs.  If one of them is
+                        // being built by somebody else right now, and that build
+                        // comes to ask for this target (a dependency recorded by
+                        // an earlier run that no longer holds, or the other way
+                        // round), both would wait for ever.  Give the lock up
+                        // and look again when they are done.  (One that an
+                        // ancestor of ours is building is a cycle: reported
+                        // by the out-of-band step as before.)
+                        for f in targets.iter() {
+                            if cycles::check(f.id().to_string()).is_ok()
+                                && ptx.state().is_locked_now(f.id())?
+                            {
+                                return Ok(Started::Busy);
+                            }
+                        }
+                    }
+                    self.start_deps_unlocked(ptx, server, targets)?
                 }
             }
-        }
+        };
+        Ok(Started::Job(job))
     }
 
     /// Run `JobServer::start` to build this object's target file.
@@ -850,6 +879,7 @@ where
                     // FIXME: separate obtaining the fid from creating the File.
                     // FIXME: maybe integrate locking into the File object?
                     f.refresh(&mut ptx)?;
+                    let fid = f.id();
                     let job = match (BuildJob {
                         t: t.into(),
                         sf: f,
@@ -858,7 +888,13 @@ where
                     })
                     .start(ps_ref.clone(), ptx, server)
                     {
-                        Ok(job) => job,
+                        Ok(Started::Job(job)) => job,
+                        Ok(Started::Busy) => {
+                            // Looked at again in the second loop, after the
+                            // jobs of this process have ended.
+                            locked.push_back((fid, t));
+                            continue;
+                        }
                         Err(e) if is_cyclic(&e) => return Err(e),
                         Err(e) => {
                             // This target cannot even be started (its .do file
@@ -889,7 +925,18 @@ where
     // do anything.  The only exception is if we're invoked as redo instead
     // of redo-ifchange; then we have to redo it even if someone else already
     // did.  But that should be rare.
+    let mut busy_again = false;
+    let mut busy_backoff = Duration::from_millis(20);
     while !locked.is_empty() || server.is_running() {
+        if busy_again {
+            busy_again = false;
+            server
+                .sleep(Duration::from_millis(
+                    (rand::random::<f32>() * busy_backoff.as_millis() as f32) as u64 + 1,
+                ))
+                .await;
+            busy_backoff = cmp::min(busy_backoff * 2, Duration::from_millis(1000));
+        }
         let jobs_done_future = server.wait_all();
         pin_mut!(jobs_done_future);
         wait_for(jobs_done_future, job_futures.as_mut()).await?;
@@ -970,7 +1017,14 @@ where
                     })
                     .start(ps_ref.clone(), ptx, server)
                     {
-                        Ok(job) => job,
+                        Ok(Started::Job(job)) => job,
+                        Ok(Started::Busy) => {
+                            // Still being built by another process: holding
+                            // neither a lock nor a token, look again soon.
+                            locked.push_back((fid, t));
+                            busy_again = true;
+                            continue;
+                        }
                         Err(e) if is_cyclic(&e) => return Err(e),
                         Err(e) => {
                             result.set(Err(e));
